@@ -73,6 +73,49 @@ def run(ctx):
             if base.get(f + "|par1|whole") != base.get(f + "|par0|whole"):
                 viol(f + "|parallel-flag", "%s differs between parallel=True and parallel=False" % f, dict(function=f))
 
+    # ---- trajectories assembled from centred pieces (join with and without a discarded overlapping frame, slices, permutations), RMSD with
+    # precentered=True: a frame's value is that of the same coordinates in a fresh one-frame trajectory, whatever the object went through
+    for k in range(ctx.n(6, 30)):
+        n_at, n_fr = rng.choice([9, 20, 37]), rng.choice([8, 14])
+        rs = np.random.RandomState(ctx.seed * 131 + k)
+        X = (rs.rand(n_fr, n_at, 3) * 2 + np.cumsum(rs.rand(n_fr, 1, 3) * 0.3, axis=0)).astype(np.float32)
+        top_ = md.Topology(); ch_ = top_.add_chain(); r_ = top_.add_residue("ALA", ch_)
+        for _ in range(n_at):
+            top_.add_atom("C", md.element.carbon, r_)
+        cut = rng.randrange(2, n_fr - 2)
+        overlap = k % 2 == 0
+        p1 = md.Trajectory(X[:cut + (1 if overlap else 0)].copy(), top_, time=np.arange(cut + (1 if overlap else 0), dtype=float))
+        p2 = md.Trajectory(X[cut:].copy(), top_, time=np.arange(cut, n_fr, dtype=float))
+        p1.center_coordinates(); p2.center_coordinates()
+        how = ["join-discard", "join", "md.join-discard", "slice", "permutation"][k % 5] if overlap else ["join", "slice", "permutation", "md.join"][k % 4]
+        if how == "join-discard":
+            J = p1.join(p2, discard_overlapping_frames=True)
+        elif how == "md.join-discard":
+            J = md.join([p1, p2], discard_overlapping_frames=True)
+        elif how == "md.join":
+            J = md.join([p1, p2])
+        else:
+            J = p1.join(p2)
+            if how == "slice":
+                J = J[1::2]
+            elif how == "permutation":
+                J = J[[int(i) for i in rs.permutation(J.n_frames)]]
+        ref_ = md.Trajectory(X[:1].copy(), top_); ref_.center_coordinates()
+        for pc in (True, False):
+            got = md.rmsd(J, md.Trajectory(ref_.xyz.copy(), top_) if not pc else ref_, 0, precentered=pc)
+            for f in range(J.n_frames):
+                one = md.Trajectory(J.xyz[f:f + 1].copy(), top_)
+                if pc:
+                    one.center_coordinates()
+                r1 = md.Trajectory(X[:1].copy(), top_); r1.center_coordinates()
+                alone = md.rmsd(one, r1, 0, precentered=pc)[0]
+                ctx.case(None, ("assembled", k, pc, f)); ctx.count("frames of assembled trajectories (RMSD, precentered)")
+                # (compared as mean square deviations: next to zero the square root turns the rounding of the inner products into 1e-4 nm)
+                if abs(float(got[f]) ** 2 - float(alone) ** 2) > 1e-5:
+                    viol("rmsd|assembled|%s" % how.replace("md.", ""), "md.rmsd(precentered=%s) for frame %d of a trajectory assembled from centred pieces by %s: %.6f; the same coordinates alone: %.6f" % (
+                        pc, f, how, float(got[f]), float(alone)), dict(how=how, frame=f, precentered=pc, n_frames=n_fr, cut=cut, overlap=overlap))
+                    break
+
     # ---- correspondence: multi-frame shrake_rupley vs per-frame model counts (c08_sasa_frames)
     lib, err = shim.build("sasa")
     if lib is None:
